@@ -432,13 +432,22 @@ class System:
                 continue
             if not c12.same(c12.resolve_real(r, "foo"), ref):
                 continue  # already reported / attributed above
+            y = None
+
+            def _coords():
+                # the one known defect of this kind: the process-wide lru caches of unit arithmetic hand registry i a product unit
+                # that is bound to a TWIN registry (one that had an equal table when the entry was cached); such cases are keyed
+                # by that cause, every other failure by its full coordinates
+                twin = y is not None and any(j != i and y.units.registry is rj for j, rj in w.regs.items())
+                return "cause=lru-product-unit-bound-to-a-twin-registry" if twin else f"route2={w.route2}|last={last}@{last_target}"
+
             try:
                 a = arr(r, "foo")
                 y = a * a
                 got = np.asarray(y.to("foo**2").d, dtype=float)
                 got_m = np.asarray(y.to("m**2").d, dtype=float) if ref[3] == rd.length else None
             except Exception as e:  # noqa: BLE001
-                ctx.violation(f"C13|arith|registry={i}|route2={w.route2}|last={last}@{last_target}|mode=same-registry-arithmetic-fails:{type(e).__name__}", dict(case, registry=i), None, str(e)[:100])
+                ctx.violation(f"C13|arith|registry={i}|{_coords()}|mode=same-registry-arithmetic-fails:{type(e).__name__}", dict(case, registry=i), None, str(e)[:100])
                 continue
             # a conversion to a unit system (built-in, or one bound to the OTHER registry) keeps the operand's registry
             others = [x for j, x in sorted(w.regs.items()) if j != i]
@@ -465,9 +474,9 @@ class System:
                         why,
                     )
             want = np.array([1.0, 4.0])
-            if not np.allclose(got, want, rtol=1e-12) or (got_m is not None and not np.allclose(got_m, want * ref[1] ** 2, rtol=1e-12)):
+            if not np.allclose(got, want, rtol=1e-12) or (got_m is not None and not np.allclose(got_m, want * ref[1] ** 2 / (resolve_ref(w.T[i], "m")[1] ** 2 if resolve_ref(w.T[i], "m")[0] == "ok" else 1.0), rtol=1e-12)):
                 ctx.violation(
-                    f"C13|arith|registry={i}|route2={w.route2}|last={last}@{last_target}|mode=result-bound-to-another-registry",
+                    f"C13|arith|registry={i}|{_coords()}|mode=result-bound-to-another-registry",
                     dict(case, registry=i),
                     {"foo**2": want.tolist(), "m**2": (want * ref[1] ** 2).tolist()},
                     {"foo**2": got.tolist(), "m**2": None if got_m is None else got_m.tolist()},
